@@ -307,6 +307,18 @@ def audit(ctx, mod):
     return rc, out, res
 
 
+def _raised_in_repo(e):
+    """'file:line in func' if the innermost frame of the exception is pyYeti code (the tree under test), else None"""
+    tb = traceback.extract_tb(e.__traceback__)
+    if not tb:
+        return None
+    f = tb[-1]
+    root = os.path.realpath(REPO) + os.sep
+    if os.path.realpath(f.filename).startswith(root):
+        return "%s:%d in %s" % (os.path.relpath(os.path.realpath(f.filename), root), f.lineno, f.name)
+    return None
+
+
 def load_known():
     path = os.path.join(VERIF, "known_findings.json")
     if not os.path.exists(path):
@@ -447,13 +459,33 @@ def main(argv=None):
                     print(out[-3000:])
                     raise Infra("leanchecker rejected the compiled modules")
         # 3. correspondence ------------------------------------------------------
-        mod.correspondence(ctx)
+        try:
+            mod.correspondence(ctx)
+        except (Infra, subprocess.TimeoutExpired):
+            raise
+        except Exception as e:
+            # an exception that escapes from pyYeti's own code on an input the harness holds to be valid is a
+            # broken tie (the model does not raise there), not an infrastructure failure: go on to the search
+            where = _raised_in_repo(e)
+            if not where:
+                raise
+            ctx.broken.append("correspondence: the implementation raised %s: %s at %s" % (type(e).__name__, str(e)[:200], where))
+            ctx.disagreements.append({"stream": "implementation-raises", "input": None,
+                                      "impl": "%s: %s at %s" % (type(e).__name__, str(e)[:200], where), "model": "no exception"})
         streams = sorted({d["stream"] for d in ctx.disagreements})
         for s in streams:
             ctx.broken.append("correspondence stream %s: model and implementation differ" % s)
         obligations.append(("correspondence", not ctx.disagreements))
         # 4. search for a failing input (always runs its base stream) -------------
-        mod.search(ctx, ctx.disagreements)
+        try:
+            mod.search(ctx, [d for d in ctx.disagreements if d.get("input") is not None])
+        except (Infra, subprocess.TimeoutExpired):
+            raise
+        except Exception as e:
+            where = _raised_in_repo(e)
+            if not where:
+                raise
+            ctx.broken.append("oracle: the implementation raised %s: %s at %s" % (type(e).__name__, str(e)[:200], where))
     except Infra as e:
         print("INFRA:", e)
         return 2
